@@ -33,6 +33,10 @@ def run():
     for cfg in ("CvImpl_dev_ul.cfg", "CvImpl_dev_stop.cfg"):
         r = vlib.model_check("CvImpl", cfg, expect_ok=False, timeout=600)
         chk.add_model("CvImpl/variant %s (must violate)" % cfg[11:-4], r, note="violated: %s" % r["violated"])
+    # the internal condition variable's timed wait (queue entry erased on timeout) as used by the semaphore model
+    rf = vlib.model_check("SemImplMC", "SemImpl_dev_front.cfg", expect_ok=False, timeout=600)
+    chk.add_model("SemImpl/variant timed_push_front: timed waiter enqueued at the front erases another waiter's "
+                  "entry on timeout (must violate)", rf, note="violated: %s" % rf["violated"])
     (binary,) = vlib.build_harness(["sync_harness"])
     nruns = 64 if chk.thorough() else 16
     nhist = 120 if chk.thorough() else 50
